@@ -255,6 +255,22 @@ class Sched:
         finally:
             self.sleepers.pop(me.tid, None)
 
+    def timed_wait(self, pred, seconds, kind):
+        """Wait until pred() holds or `seconds` have passed. The timeout may fire at any scheduling point (a
+        deviation while others can run, the default when nobody can), and when it does the virtual clock is at
+        least at the deadline - code that measures the wait sees the time it asked for."""
+        me = self.me()
+        deadline = self.vclock + max(0.0, seconds)
+        self.sleepers[me.tid] = deadline
+        try:
+            self.block_until(lambda: pred() or self.vclock >= deadline, kind, timeout=True)
+        finally:
+            self.sleepers.pop(me.tid, None)
+        if not pred():
+            self.vclock = max(self.vclock, deadline)
+            return False
+        return True
+
     def point(self, kind='p'):
         me = self.me()
         me.where = kind
@@ -343,6 +359,9 @@ class CLock:
                 s.point('lock-try')
                 if self.owner is not None:
                     return False
+            elif timeout is not None and timeout >= 0:
+                if not s.timed_wait(lambda: self.owner is None, timeout, 'lock'):
+                    return False
             else:
                 s.block_until(lambda: self.owner is None, 'lock')
         else:
@@ -350,7 +369,11 @@ class CLock:
             if self.owner is not None:
                 if not blocking:
                     return False
-                s.block_until(lambda: self.owner is None, 'lock')
+                if timeout is not None and timeout >= 0:
+                    if not s.timed_wait(lambda: self.owner is None, timeout, 'lock'):
+                        return False
+                else:
+                    s.block_until(lambda: self.owner is None, 'lock')
         self.owner = s.me()
         return True
 
@@ -397,7 +420,10 @@ class CEvent:
         s = cur()
         s.point('ev-wait')
         if not self.flag:
-            s.block_until(lambda: self.flag, 'ev-wait', timeout=timeout is not None)
+            if timeout is None:
+                s.block_until(lambda: self.flag, 'ev-wait')
+            else:
+                s.timed_wait(lambda: self.flag, timeout, 'ev-wait')
         return self.flag
 
     isSet = is_set
@@ -423,7 +449,10 @@ class CRLock:
         if self.owner is not None:
             if not blocking:
                 return False
-            s.block_until(lambda: self.owner is None, 'lock', timeout=timeout is not None and timeout >= 0)
+            if timeout is not None and timeout >= 0:
+                s.timed_wait(lambda: self.owner is None, timeout, 'lock')
+            else:
+                s.block_until(lambda: self.owner is None, 'lock')
             if self.owner is not None:
                 return False
         self.owner, self.count = me, 1
@@ -475,7 +504,10 @@ class CSemaphore:
         if self.value <= 0:
             if not blocking:
                 return False
-            s.block_until(lambda: self.value > 0, 'sem', timeout=timeout is not None)
+            if timeout is not None:
+                s.timed_wait(lambda: self.value > 0, timeout, 'sem')
+            else:
+                s.block_until(lambda: self.value > 0, 'sem')
             if self.value <= 0:
                 return False
         self.value -= 1
@@ -525,7 +557,10 @@ class CCondition:
         for _ in range(depth):
             self.lock.release()
         try:
-            s.block_until(lambda: tok[0], 'cond-wait', timeout=timeout is not None)
+            if timeout is not None:
+                s.timed_wait(lambda: tok[0], timeout, 'cond-wait')
+            else:
+                s.block_until(lambda: tok[0], 'cond-wait')
         finally:
             if tok in self.waiters:
                 self.waiters.remove(tok)
@@ -576,7 +611,10 @@ class CThread:
     def join(self, timeout=None):
         s = cur()
         if self._rec is not None and not self._rec.done:
-            s.block_until(lambda: self._rec.done, 'thread-join', timeout=timeout is not None)
+            if timeout is not None:
+                s.timed_wait(lambda: self._rec.done, timeout, 'thread-join')
+            else:
+                s.block_until(lambda: self._rec.done, 'thread-join')
 
     def is_alive(self):
         return self._rec is not None and not self._rec.done
